@@ -2,7 +2,7 @@
    yields the normalised value with nothing left over, for every format of the wire-format language.
    Property statements only; each is closed by [exact] of a lemma proved in WireFmt/Proofs*.v. *)
 From Coq Require Import List ZArith.
-From SV Require Import WireFmt.Format WireFmt.Proofs WireFmt.ProofsPair.
+From SV Require Import WireFmt.Format WireFmt.Proofs WireFmt.ProofsPair WireFmt.ProofsReenc.
 Import ListNotations.
 Open Scope Z_scope.
 
@@ -41,3 +41,25 @@ Print Assumptions c09_pair_roundtrip_top.
 Theorem c09_pair_sizing : forall fe v x, enc_prep fe v x = zlen (enc_real fe v x).
 Proof. exact pair_sizing. Qed.
 Print Assumptions c09_pair_sizing.
+
+(* Re-encoding the decoded value gives identical bytes.  [reenc_ok f v x0] (WireFmt/ProofsReenc.v) is a
+   computable side condition: the paths f touches at version v are valid in x0 and pairwise non-overlapping,
+   x0 holds nil where the decoder keeps the field, a collection whose encoder tells nil from empty is decoded
+   with a null behaviour yielding nil and a zero behaviour yielding non-nil, and the same for element formats.
+   Neither wf nor wt is needed for this direction. *)
+Theorem c09_reencode : forall f v x0 x,
+  reenc_ok f v x0 = true -> enc_real f v (upd f v x0 x) = enc_real f v x.
+Proof. exact reencode. Qed.
+Print Assumptions c09_reencode.
+
+Theorem c09_reencode_decoded : forall cfg f v x x0 y,
+  wf f v = true -> wt f v x = true -> reenc_ok f v x0 = true ->
+  dec_top cfg None f v x0 (enc_real f v x) = Ok y -> enc_real f v y = enc_real f v x.
+Proof. exact reencode_decoded. Qed.
+Print Assumptions c09_reencode_decoded.
+
+Theorem c09_pair_reencode : forall fd fe v x0 x,
+  mirror_at v fd fe = true -> reenc_ok (paired v fd fe) v x0 = true ->
+  enc_real fe v (upd (paired v fd fe) v x0 x) = enc_real fe v x.
+Proof. exact pair_reencode. Qed.
+Print Assumptions c09_pair_reencode.
